@@ -128,9 +128,26 @@ def guard(desc, J: np.ndarray, dname: str, orders=None):
             return "mgda_argmin_tie"
         return None
     if name == "PCGrad":
-        if orders is None:
-            return "pcgrad_orders_unknown"
         lim = {"float64": 1e-9, "float32": 1e-3}[dname] * s ** 2
+        if orders is None:
+            # draws not observable (permutations drawn through another torch entry point): recorder-free guard over ALL orders
+            if (G >= lim).all():
+                return None
+            if m > 4:
+                return "pcgrad_orders_unknown"
+            import itertools
+            for i in range(m):
+                for perm in itertools.permutations([j for j in range(m) if j != i]):
+                    g = J[i].copy()
+                    for j in perm:
+                        ip = g @ J[j]
+                        if abs(ip) < lim:
+                            return "pcgrad_inner_product_near_zero"
+                        if ip < 0:
+                            if J[j] @ J[j] < 1e-12 * s ** 2:
+                                return "pcgrad_tiny_row"
+                            g = g - ip / (J[j] @ J[j]) * J[j]
+            return None
         for i in range(m):
             g = J[i].copy()
             for j in orders[i]:
